@@ -13,6 +13,7 @@ def run(ctx):
     ctx.rule("R-REFUSE", "a new transfer is refused while the pair's previous session entry still exists (any state)", floor=5)
     ctx.rule("R-POOL-PAIR", "FD: the session number goes back to the pool only after the session entry is deleted", floor=10)
     ctx.rule("R-PAIR-ORDER", "state / deadline pair: written state-first by the receive path, read deadline-first by the job scan", floor=6)
+    ctx.rule("R-SCRATCH-OWN", "methods shared by the job thread and the receive path build their frames in containers of their own", floor=3)
     for fd in (False, True):
         L = T.Layer(ctx, fd=fd)
         dele = R.job_subscript(ctx, L)
@@ -27,10 +28,14 @@ def run(ctx):
                              "no longer exists, and its own del raises KeyError" % f.name, n)
         S.order_send(ctx, L)
         R.pair_order(ctx, L)
+        R.scratch_own(ctx, L)
         # a pair / session number must stay occupied until the job thread has removed the old entry: otherwise a send_pgn that
         # runs between the two steps creates a session under the key the job thread then deletes
         T.refuse(ctx, L)
         if fd:
             TM.pool_pair(ctx, L)
+    from rules import ecu as _E
+    ctx.rule("R-WAKE-CONSUME", "wake-up tokens posted during a job pass survive until the pass's blocking wait (a reply that pre-empts the pass is served at once)", floor=1)
+    _E.wake_consume(ctx)
     ctx.assume("CPython: dict get/pop/in on a key are atomic with respect to the other thread; a thread switch can occur between any two bytecodes")
     return "raise-on-interleave and ordering clauses of C08 decided on both data link layers"
